@@ -312,6 +312,10 @@ package lua
 //@ let@"if gfnret < 0" g = gfnret
 //@ ensures  "yield-pops-only-the-host-frame": g < 0 ==> result && $sp(L.stack) == old($sp(L.stack)) - 1 && top(L) == ite(tailcall, old(L.currentFrame.Base), old(L.currentFrame.ReturnBase))
 //@ raises when true
+// a host function that returns as the LAST activation of a coroutine (its body, or called by the body in tail position)
+// ends the coroutine: control and the results go to the resumer, the coroutine is dead
+//@ let@"L.Parent != nil && L.stack.Sp() == 1" par = L.Parent
+//@ ensures  "last-activation-ends-the-coroutine": g >= 0 && par != nil && old($sp(L.stack)) == ite(tailcall, 2, 1) ==> result && L.Dead && L.G.CurrentThread == par && L.Parent == nil
 //@ ensures  !tailcall && !result ==> $sp(L.stack) == old($sp(L.stack)) - 1 && Inv_reg(L.reg) && L.reg == old(L.reg)
 //@ ensures  !tailcall && !result ==> (L.currentFrame == nil <==> $sp(L.stack) == 0)
 //@ ensures  L.currentFrame != nil ==> L.currentFrame.Fn != nil
